@@ -410,6 +410,11 @@ class C10(IRProp):
             v = self.check_rewrite(sd)
             if v:
                 bads.append(dict(what=v[0], input={"seed": sd}, finding=v[1]))
+            for sd2 in (sd, sd + 1):
+                n += 1
+                v = self.check_layout(sd2)
+                if v:
+                    bads.append(dict(what=v[0], input={"seed": sd2, "layout": True}, finding=v[1]))
         bads = [b for b in bads if b["finding"] is None][:10] + [b for b in bads if b["finding"]][:3]
         return dict(evaluations=len(pairs) + n, violations=bads, samples=[{"oracle": self.oracle_text}])
 
@@ -483,8 +488,94 @@ class C10(IRProp):
                         "C10-align-directive-inside-a-patch" if later else None)
         return None
 
+    def check_layout(self, sd):
+        """Alignment requirements of the INPUT's blocks after a rewrite, in a text section and in a data-only section: aligned blocks
+        that are not the first of their interval, size changes in front of them, a patch at offset 0 of an aligned block that itself
+        starts with a (weaker or stronger) `.align`, data that grows in front of aligned data."""
+        import random
+        import gtirb
+        import gtirb_rewriting
+        from gtirb_test_helpers import add_code_block, add_data_block, add_data_section, add_symbol, add_text_section, create_test_module
+        from helpers import literal_patch
+        rnd = random.Random(sd ^ 0x10a10)
+        ir, m = create_test_module(gtirb.Module.FileFormat.ELF, gtirb.Module.ISA.X64)
+        _, bi = add_text_section(m, address=0x1000)
+        _, dbi = add_data_section(m, address=0x4000)
+        want = {}
+        lead = rnd.choice([1, 3, 5, 16])
+        f1 = add_code_block(bi, b"\x90" * (lead - 1) + b"\xc3")
+        a1 = rnd.choice([4, 8, 16])
+        if (-lead) % a1:
+            add_code_block(bi, b"\x90" * ((-lead) % a1))
+        f2 = add_code_block(bi, b"\x90" * rnd.choice([3, 5, 16]) + b"\xc3")
+        end = f2.offset + f2.size
+        a3 = rnd.choice([4, 16])
+        if (-end) % a3:
+            add_code_block(bi, b"\x90" * ((-end) % a3))
+        f3 = add_code_block(bi, b"\x90\xc3")
+        want[id(f2)], want[id(f3)] = (f2, a1, "f2"), (f3, a3, "f3")
+        d1 = add_data_block(dbi, b"\1" * 8)
+        n2 = rnd.choice([3, 8])
+        d2 = add_data_block(dbi, b"\2" * n2)
+        if (-(8 + n2)) % 16:
+            add_data_block(dbi, b"\0" * ((-(8 + n2)) % 16))
+        d3 = add_data_block(dbi, b"\3" * 4)
+        want[id(d2)], want[id(d3)] = (d2, 8, "d2"), (d3, 16, "d3")
+        for k, blk in (("f1", f1), ("f2", f2), ("f3", f3), ("d1", d1), ("d2", d2), ("d3", d3)):
+            add_symbol(m, k, blk)
+        tab = m.aux_data["alignment"].data
+        for blk, a, _ in want.values():
+            tab[blk] = a
+        ctx = gtirb_rewriting.RewritingContext(m, [])
+        did = []
+        if rnd.random() < 0.6:
+            ctx.insert_at(f1, 0, literal_patch("nop"))
+            did.append("nop into f1")
+        k = rnd.random()
+        if k < 0.5:
+            a2 = rnd.choice([2, 4, 8, 32])
+            ctx.insert_at(f2, 0, literal_patch(f".align {a2}\nnop"))
+            did.append(f"`.align {a2}; nop` at offset 0 of f2 (aligned {a1})")
+        elif k < 0.7:
+            ctx.insert_at(f2, 0, literal_patch("nop"))
+            did.append("nop at offset 0 of f2")
+        if rnd.random() < 0.6:
+            off = rnd.choice([0, 4, 8])
+            ctx.insert_at(d1, off, b"abc")
+            did.append(f"3 bytes into d1 at {off}")
+        if rnd.random() < 0.3:
+            ctx.replace_at(d2, 0, 1, b"xy")
+            did.append("d2: 1 byte replaced by 2")
+        if not did:
+            return None
+        try:
+            ctx.apply()
+        except Exception as e:   # noqa
+            return (f"rewrite ({'; '.join(did)}) raises {type(e).__name__}: {str(e)[:80]}", None)
+        tab = m.aux_data["alignment"].data
+        for blk, a, name in want.values():
+            if blk.module is not m or blk.address is None:
+                return (f"after {'; '.join(did)}: {name} left the module", None)
+            if blk.address % a:
+                return (f"after {'; '.join(did)}: {name} (alignment {a} in the input, met there) is at {blk.address:#x}; its table entry is {tab.get(blk)}", None)
+            if tab.get(blk, 1) % a:
+                return (f"after {'; '.join(did)}: the alignment entry of {name} went from {a} to {tab.get(blk)}", None)
+        return None
+
     def spec(self, seed, case, r):
         return []
+
+    def replay(self, path):
+        import json
+        d = json.load(open(path))
+        print(json.dumps(d, indent=1)[:3000])
+        v = d.get("violation")
+        inp = v.get("input", {}) if v else {}
+        if isinstance(inp, dict) and "seed" in inp and set(inp) <= {"seed", "layout"}:
+            got = self.check_layout(inp["seed"]) if inp.get("layout") else self.check_rewrite(inp["seed"])
+            print("replayed:", got or "no violation on the current tree")
+            return 1 if got and not got[1] else 0
+        return super().replay(path)
 
 
 PROP = C10()
